@@ -223,7 +223,7 @@ pub fn run(repo: &Path, out: &Path) -> Result<(), String> {
     // discharged edges (committed file): [{"from": "Parser::a", "to": "Parser::b", "kind": "finding"|"lemma", "ref": "..."}]
     let mut discharged: Vec<(usize, usize, String, String)> = vec![];
     let mut unmatched_discharges = vec![];
-    if let Ok(t) = fs::read_to_string("/verif/c03_discharged.json") {
+    if let Ok(t) = fs::read_to_string(format!("{}/c03_discharged.json", std::env::var("VERIF_ROOT").unwrap_or_else(|_| "/verif".to_string()))) {
         let j: serde_json::Value = serde_json::from_str(&t).map_err(|e| e.to_string())?;
         for e in j["edges"].as_array().cloned().unwrap_or_default() {
             let (a, b) = (e["from"].as_str().unwrap_or(""), e["to"].as_str().unwrap_or(""));
